@@ -323,17 +323,6 @@ class SR:
     def __format__(self, spec):
         return repr(self)
 
-    def __float__(self):
-        if self.is_const():
-            return float(self.const_value())
-        raise Inconclusive('float() of a symbolic value (a C-level function was reached without a model)')
-
-    def __index__(self):
-        raise TypeError('symbolic real used as index')
-
-    def __round__(self, n=None):
-        raise Inconclusive('round() of symbolic value')
-
 
 def _mono_mul(m1, m2):
     if not m1:
